@@ -676,12 +676,14 @@ fn build_pat(hir_table: &hir::HirTable, results: &TypeckResults, pat_id: hir::Pa
             value: Prim::boolean(value),
             ty: tast::Ty::TBool,
         },
-        hir::Pat::PInt { value } => tast::Pat::PPrim {
-            value: Prim::Int32 {
-                value: parse_signed(&value).unwrap_or(0),
-            },
-            ty: results.pat_ty(pat_id).cloned().unwrap_or(tast::Ty::TInt32),
-        },
+        hir::Pat::PInt { value } => {
+            // An unsuffixed integer pattern has the integer type of its scrutinee.
+            let ty = results.pat_ty(pat_id).cloned().unwrap_or(tast::Ty::TInt32);
+            tast::Pat::PPrim {
+                value: unsuffixed_int_prim(&value, &ty),
+                ty,
+            }
+        }
         hir::Pat::PInt8 { value } => tast::Pat::PPrim {
             value: Prim::Int8 {
                 value: parse_signed(&value).unwrap_or(0),
@@ -785,6 +787,35 @@ fn build_pat(hir_table: &hir::HirTable, results: &TypeckResults, pat_id: hir::Pa
         }
         hir::Pat::PWild => tast::Pat::PWild {
             ty: results.pat_ty(pat_id).cloned().unwrap_or(tast::Ty::TUnit),
+        },
+    }
+}
+
+fn unsuffixed_int_prim(value: &str, ty: &tast::Ty) -> Prim {
+    match ty {
+        tast::Ty::TInt8 => Prim::Int8 {
+            value: parse_signed(value).unwrap_or(0),
+        },
+        tast::Ty::TInt16 => Prim::Int16 {
+            value: parse_signed(value).unwrap_or(0),
+        },
+        tast::Ty::TInt64 => Prim::Int64 {
+            value: parse_signed(value).unwrap_or(0),
+        },
+        tast::Ty::TUint8 => Prim::UInt8 {
+            value: parse_unsigned(value).unwrap_or(0),
+        },
+        tast::Ty::TUint16 => Prim::UInt16 {
+            value: parse_unsigned(value).unwrap_or(0),
+        },
+        tast::Ty::TUint32 => Prim::UInt32 {
+            value: parse_unsigned(value).unwrap_or(0),
+        },
+        tast::Ty::TUint64 => Prim::UInt64 {
+            value: parse_unsigned(value).unwrap_or(0),
+        },
+        _ => Prim::Int32 {
+            value: parse_signed(value).unwrap_or(0),
         },
     }
 }
